@@ -16,6 +16,8 @@ Nothing is committed to /repo; every scratch worktree is removed.
 """
 import json, os, re, shutil, subprocess, sys
 
+RACE = ["-race"] if os.environ.get("RACE") else []  # a demonstration of a data race needs the detector
+
 ENV = dict(os.environ, GOFLAGS="-mod=mod", GOPROXY="off", GOSUMDB="off", GOTOOLCHAIN="local")
 ENV.pop("GOWORK", None)
 REPO, VERIF = "/repo", "/verif"
@@ -49,7 +51,7 @@ def main():
         open(demo_path, "w").write(demo_txt)
         names = re.findall(r"func (Test\w+)\(", demo_txt)
         runarg = "^(" + "|".join(names) + ")$"
-        rc0, out0 = run(["go", "test", "-count=1", "-run", runarg, "./" + demo_dir + "/"], cwd=scratch)
+        rc0, out0 = run(["go", "test", "-count=1"] + RACE + ["-run", runarg, "./" + demo_dir + "/"], cwd=scratch)
         ran.append(f"unchanged tree: go test -run '{runarg}' ./{demo_dir}/ -> exit {rc0}")
         result["demo_passes_without_change"] = rc0 == 0
         os.remove(demo_path)
@@ -67,7 +69,7 @@ def main():
         if rc != 0:
             result["suite_output_tail"] = out[-1500:]
         open(demo_path, "w").write(demo_txt)
-        rc1, out1 = run(["go", "test", "-count=1", "-run", runarg, "./" + demo_dir + "/"], cwd=scratch)
+        rc1, out1 = run(["go", "test", "-count=1"] + RACE + ["-run", runarg, "./" + demo_dir + "/"], cwd=scratch)
         ran.append(f"with change: go test -run '{runarg}' ./{demo_dir}/ -> exit {rc1}")
         result["demo_fails_with_change"] = rc1 != 0
         result["demo_failure_tail"] = out1[-800:]
